@@ -88,6 +88,37 @@ def check_oneshot(res, bt, kind, codec, e, tailkind, t):
         res.witness('oneshot:value-differs:' + C.diff_kind(bt.T, bt.v, a), feats, case, repr(a)[:300])
     else:
         res.see('oneshot-ok')
+    if tailkind == 'long' or res.evaluations % 8 == 0:
+        # the same call on other kinds of input object: whatever follows the encoding comes back whole from each
+        import tempfile
+        from pyasn1.type import univ as _univ
+        for okind in ('bytesio', 'octet-string', 'file'):
+            tmp = None
+            try:
+                if okind == 'bytesio':
+                    sub = io.BytesIO(e + t)
+                elif okind == 'octet-string':
+                    sub = _univ.OctetString(e + t)
+                else:
+                    tmp = tempfile.NamedTemporaryFile(prefix='pyasn1-verif-c07-', delete=True)
+                    tmp.write(e + t)
+                    tmp.flush()
+                    sub = open(tmp.name, 'rb')
+                try:
+                    d2, rest2 = DEC[codec].decode(sub, asn1Spec=bt.schema)
+                except Exception as ex:
+                    c = H.classify_exception(ex)
+                    res.witness('oneshot:%s:decode-raised:%s' % (okind, c if not isinstance(c, tuple) else 'leak:' + c[1]),
+                                feats | {'input:' + okind}, case, ex)
+                    continue
+                res.see('oneshot-input-kinds:' + okind)
+                if rest2 != t:
+                    res.witness('oneshot:%s:remainder-differs' % okind, feats | {'input:' + okind}, case,
+                                'rest of %d octets, tail of %d' % (len(rest2), len(t)))
+            finally:
+                if tmp is not None:
+                    sub.close()
+                    tmp.close()
 
 
 class PlainSeekable(object):
